@@ -9,10 +9,10 @@
 namespace GV.Bits32
 
 /-- truncation of a mathematical result to `uint32` -/
-abbrev u32 (n : Nat) : Nat := n % 4294967296
+def u32 (n : Nat) : Nat := n % 4294967296
 
 /-- Go `a - b` on uint32 -/
-abbrev sub32 (a b : Nat) : Nat := (a + 4294967296 - b % 4294967296) % 4294967296
+def sub32 (a b : Nat) : Nat := (a + 4294967296 - b % 4294967296) % 4294967296
 
 /-- Go `a &^ b` on uint32 (bit clear): `a AND (NOT b)`, NOT within 32 bits -/
 abbrev andNot32 (a b : Nat) : Nat := a &&& (b ^^^ 4294967295)
@@ -42,9 +42,9 @@ def add32 (x y carry : Nat) : Nat × Nat :=
 def leadingZeros32 (x : Nat) : Nat := if x = 0 then 32 else 31 - Nat.log2 x
 
 /-- Go `x << s` on uint32 with a `uint` count: 0 once the count reaches 32 -/
-abbrev shl32 (x s : Nat) : Nat := if s < 32 then u32 (x <<< s) else 0
+def shl32 (x s : Nat) : Nat := if s < 32 then u32 (x <<< s) else 0
 /-- Go `x >> s` on uint32 with a `uint` count -/
-abbrev shr32 (x s : Nat) : Nat := if s < 32 then x >>> s else 0
+def shr32 (x s : Nat) : Nat := if s < 32 then x >>> s else 0
 
 inductive DivResult where
   | ok (quo rem : Nat)
@@ -73,26 +73,34 @@ def loopFuel : Nat := 3
 def digit (yn1 yn0 u1 u0 : Nat) : Option Nat :=
   corrLoop loopFuel (u1 / yn1) (sub32 u1 (u32 (u1 / yn1 * yn1))) yn1 yn0 u0
 
-/-- bits.go:68-91: the two digits on the normalised operands, and the results -/
-def div32Core (y yn1 yn0 un16 un1 un0 s : Nat) : DivResult :=
-  match digit yn1 yn0 un16 un1 with
+/-- bits.go:80-91: the low digit q0 (given as the outcome of its `digit` computation) and the results
+    `q1*two16 + q0, (un21*two16 + un0 - q0*y) >> s` -/
+def div32Lo (y un21 un0 q1 s : Nat) : Option Nat → DivResult
+  | none => .fuel
+  | some q0 => .ok (u32 (u32 (q1 * 65536) + q0)) (shr32 (sub32 (u32 (u32 (un21 * 65536) + un0)) (u32 (q0 * y))) s)
+
+/-- bits.go:79: `un21 := un16*two16 + un1 - q1*y`, then the low digit on (un21, un0) -/
+def div32Hi (y yn1 yn0 un16 un1 un0 s : Nat) : Option Nat → DivResult
   | none => .fuel
   | some q1 =>
-    let un21 := sub32 (u32 (u32 (un16 * 65536) + un1)) (u32 (q1 * y))
-    match digit yn1 yn0 un21 un0 with
-    | none => .fuel
-    | some q0 =>
-      .ok (u32 (u32 (q1 * 65536) + q0)) (shr32 (sub32 (u32 (u32 (un21 * 65536) + un0)) (u32 (q0 * y))) s)
+    div32Lo y (sub32 (u32 (u32 (un16 * 65536) + un1)) (u32 (q1 * y))) un0 q1 s
+      (digit yn1 yn0 (sub32 (u32 (u32 (un16 * 65536) + un1)) (u32 (q1 * y))) un0)
 
-/-- bits.go:45-92 `Div32` (lines 51-66: panics and normalisation; the rest in `div32Core`) -/
+/-- bits.go:68-91: the two digits on the normalised operands -/
+def div32Core (y yn1 yn0 un16 un1 un0 s : Nat) : DivResult :=
+  div32Hi y yn1 yn0 un16 un1 un0 s (digit yn1 yn0 un16 un1)
+
+/-- bits.go:57-66: the normalised operands for the shift count s:
+    `y <<= s; yn1 := y >> 16; yn0 := y & mask16; un16 := hi<<s | lo>>(32-s); un10 := lo << s; un1 := un10 >> 16; un0 := un10 & mask16` -/
+def div32Norm (hi lo y s : Nat) : DivResult :=
+  div32Core (shl32 y s) (shl32 y s >>> 16) (shl32 y s &&& 65535) (shl32 hi s ||| shr32 lo (32 - s))
+    (shl32 lo s >>> 16) (shl32 lo s &&& 65535) s
+
+/-- bits.go:45-92 `Div32` (lines 51-56: panics and `s := uint(LeadingZeros32(y))`) -/
 def div32 (hi lo y : Nat) : DivResult :=
   if y = 0 then .divideError
   else if y ≤ hi then .overflowError
-  else
-    let s := leadingZeros32 y
-    let y := shl32 y s
-    let un10 := shl32 lo s
-    div32Core y (y >>> 16) (y &&& 65535) (shl32 hi s ||| shr32 lo (32 - s)) (un10 >>> 16) (un10 &&& 65535) s
+  else div32Norm hi lo y (leadingZeros32 y)
 
 inductive RemResult where
   | ok (rem : Nat)
